@@ -70,10 +70,10 @@ Blocks == <<"ifret", "ifearly", "ifassign", "ifone", "iftab">>
 CondAtEnd(t) == t[1] = "Cond" \/ (t[1] = "Let" /\ t[4][1] = "Cond")
 SpellingsOf(t) ==
   General \o (IF HasStrB(t) \/ HasFmtB(t) THEN <<"fstr">> ELSE <<>>)
-          \o (IF HasStrB(t) THEN <<"triple", "ftriple">> ELSE <<>>)
+          \o (IF HasStrB(t) THEN <<"triple", "ftriple", "strcont">> ELSE <<>>)
           \o (IF CondAtEnd(t) THEN Blocks ELSE <<>>)
           \o (IF t[1] = "Let" THEN <<"semicolon">> ELSE <<>>)
-AllSpellings == General \o <<"fstr", "triple", "ftriple">> \o Blocks \o <<"semicolon">>
+AllSpellings == General \o <<"fstr", "triple", "ftriple", "strcont">> \o Blocks \o <<"semicolon">>
 
 \* k of the spellings that apply, starting at a position that moves with the tree (0 = all of them)
 Pick(sp, j, k) == IF k = 0 \/ k >= Len(sp) THEN sp ELSE [q \in 1..k |-> sp[((j + q - 2) % Len(sp)) + 1]]
